@@ -85,6 +85,20 @@ fn attacker_ending(rng: &mut Rng) -> Option<Pos> {
         let t = *rng.pick(&[N, B, R]);
         put(&mut sqs, t | (ac ^ BLACK), rng);
     }
+    // "mate now or never": the defender has a pawn one step from queening and a loose piece
+    // to be grabbed, so a move that wins material instead of mating throws the win away
+    if rng.chance(1, 3) {
+        let rank = if attacker_black { 6 } else { 1 }; // the defender is the other colour
+        for _ in 0..20 {
+            let s = rank * 8 + rng.usize_below(8);
+            if sqs[s] == EMPTY {
+                sqs[s] = P | (ac ^ BLACK);
+                break;
+            }
+        }
+        let t = *rng.pick(&[N, B, R]);
+        put(&mut sqs, t | (ac ^ BLACK), rng);
+    }
     let pos = Pos {
         sq: sqs,
         white: rng.chance(1, 2),
@@ -286,13 +300,20 @@ pub fn generate(cx: &super::GenCtx) -> Vec<Plan> {
     // earlier completed searches of the same position at other depths, in random order
     let prefix = rng.below(4);
     for _ in 0..prefix {
-        let maxd = if sparse { 5 } else { 4 };
+        let maxd = if sparse {
+            5
+        } else if pos.piece_count() <= 22 {
+            4
+        } else {
+            3
+        };
         let d = rng.range(1, maxd);
         s.push(Action::send(format!("go depth {d}")));
         s.push(Action::WaitBestmove);
         s.push(Action::WaitIdle);
     }
-    let mut finals = vec![3u64, 4];
+    // depth 4 on a crowded board can cost millions of nodes (unbounded quiescence): depth 3 only there
+    let mut finals = if pos.piece_count() <= 22 { vec![3u64, 4] } else { vec![3u64] };
     if rng.chance(1, 2) {
         finals.reverse();
     }
@@ -454,7 +475,7 @@ pub fn check(plans: &[Plan], recs: &[RunRec]) -> Outcome {
             // was exhaustive (or the mating material is gone); otherwise inconclusive.
             let mut verdict = "kept";
             let mut why = String::new();
-            let mut budget = Solver::new(1_500_000);
+            let mut budget = Solver::new(25_000_000);
             'replies: for r in after.legal_moves() {
                 let p2 = after.make(r);
                 let defender_bare_now = p2
